@@ -13,7 +13,7 @@ import (
 
 func init() {
 	register(&PropInfo{
-		ID: "C14", Level: "other", MinObls: 24,
+		ID: "C14", Level: "other", MinObls: 20,
 		Explanation: "Stream equality under segmentation needs execution; decided statically: R1 the key derivation against a spec table (E7 terms): MAC(s,x)=SHA256(s|x|s), KEY/IV = MAC[:16]/MAC[16:], the four label strings, magic 0x2BF5CA7E, MAX_PADDING 8192, PADLEN in [0,8192], session secrets over INIT_SEED|RESP_SEED ordered by role with nothing in front of them, pad keys from each side's own label; " +
 			"R2 role table: which stream (initiator/responder) each role installs for sending and receiving, mirrored between the roles; R3 handshake success requires the peer's magic to match and PADLEN <= 8192, and every PADLEN in [0,8192] is accepted; R4 segmentation independence and exact consumption: the handshake reads exactly the 16-byte seed, the 8-byte header and PADLEN bytes of padding, each with one io.ReadFull outside any loop, in that order; what is sent is seed | E(magic | padlen | random padding); R5 deadline typestate of both constructors (C10.R1).",
 		NotCovered: []string{"delivery of exactly the bytes written under every segmentation (needs execution)", "AES-CTR and SHA-256 themselves"},
